@@ -50,5 +50,20 @@ for d in sorted(os.listdir(S)):
     json.dump(meta, open(p + '/meta.json', 'w'), indent=1)
     rows.append((d, conf.get('pinned_suite_with_change', '?'), conf.get('demo_with_change', '?'), ','.join(caught) or ('MISSED' if det else 'not evaluated'),
                  ' '.join('%s:%s' % (c, r.get('violations')) for c, r in sorted(det.items()))))
+if '--md' in sys.argv:
+    print('| id | files | needs to manifest | suite with change | caught by (quick tier) |')
+    print('|---|---|---|---|---|')
+    for d in sorted(os.listdir(S)):
+        mp = os.path.join(S, d, 'meta.json')
+        if not os.path.exists(mp):
+            continue
+        m = json.load(open(mp))
+        need = (m.get('needs_to_manifest') or '').replace('|', '/').replace('\n', ' ')
+        if len(need) > 260:
+            need = need[:257] + '...'
+        ran = ', '.join(sorted(m['detection']))
+        cb = ', '.join(m['caught_by']) or ('**missed** (ran ' + ran + ')' if m['detection'] else 'not evaluated')
+        print('| %s | %s | %s | %s | %s |' % (d, ', '.join(m['files_changed']), need, m['confirmed_by_me'].get('pinned_suite_with_change', '?'), cb))
+    sys.exit(0)
 for r in rows:
     print('%-8s suite=%-5s demo_with=%-5s caught_by=%-22s ran=%s' % r)
